@@ -101,6 +101,40 @@ MUTANTS = [
      "        if self.tree is None or other.tree is None:\n            return np.zeros(len(ang_limits))\n", ""),
     ("c10-binning-file-closed-flipped", ["C07"], "catalog/trees.py",
      "                closed_left = binning.closed == Closed.left", "                closed_left = binning.closed == Closed.left or len(binning) == 1"),
+    # ---- C09
+    ("c09-finite-check-removed", ["C09"], "datachunk.py",
+     "asarray_func = np.asarray_chkfinite if chkfinite else np.asarray", "asarray_func = np.asarray"),
+    ("c09-range-check-off-by-one", ["C09"], "datachunk.py",
+     "if patch_ids.min() < min_id or patch_ids.max() > max_id:", "if patch_ids.min() < min_id - 1 or patch_ids.max() > max_id + 1:"),
+    ("c09-finalize-on-error", ["C09"], "catalog/catalog.py",
+     "        if exc_type is None:  # otherwise leave the cache incomplete and invalid\n            self.finalize()", "        self.finalize()"),
+    ("c09-writer-errors-swallowed", ["C09"], "catalog/catalog.py",
+     "            if exc_type is None and self.process.exitcode != 0:\n                raise RuntimeError(\"writing patch data failed, see writer error above\")\n", ""),
+    ("c09-no-terminate-on-error", ["C09"], "catalog/catalog.py",
+     "                self.process.terminate()\n", "                pass\n"),
+    ("c09-overwrite-guard-dropped", ["C09"], "catalog/catalog.py",
+     "            elif not (self.cache_directory / PATCH_INFO_FILE).exists():", "            elif False:"),
+    ("c09-exists-guard-dropped", ["C09"], "catalog/catalog.py",
+     "            if not overwrite:\n                raise FileExistsError(f\"cache directory exists: {cache_directory}\")\n            elif", "            if"),
+    ("c09-empty-centre-accepted", ["C09", "C12"], "catalog/catalog.py",
+     "        if patch_ids != list(range(len(patch_centers))):", "        if False:"),
+    ("c09-length-check-removed", ["C09"], "catalog/readers.py",
+     "            common_len_assert([self._file[col] for col in self._columns.values()])", "            pass"),
+    # ---- C12
+    ("c12-radius-to-mean", ["C12"], "catalog/patch.py",
+     "        new.radius = coords.distance(new.center).max()", "        new.radius = coords.distance(coords.mean(weights)).max()"),
+    ("c12-sum-weights-ignores-weights", ["C12"], "catalog/patch.py",
+     "            new.sum_weights = float(np.sum(weights))", "            new.sum_weights = float(new.num_records)"),
+    ("c12-centres-reversed", ["C12"], "catalog/catalog.py",
+     "        patch_arg_iter = zip(patch_paths, patch_centers)", "        patch_arg_iter = zip(patch_paths, patch_centers[::-1])"),
+    ("c12-guard-lengths-only", ["C12"], "correlation/measurements.py",
+     "        if any(set(cat.keys()) != catalog.keys() for cat in catalogs):", "        if any(len(cat.keys()) != len(catalog.keys()) for cat in catalogs):"),
+    ("c12-guard-removed", ["C12"], "correlation/measurements.py",
+     "        check_patch_conistency(ref_cat, *other_cats)\n", ""),
+    ("c12-guard-rtol-huge", ["C12"], "correlation/measurements.py",
+     "def check_patch_conistency(catalog: Catalog, *catalogs: Catalog, rtol: float = 0.5):", "def check_patch_conistency(catalog: Catalog, *catalogs: Catalog, rtol: float = 5.0):"),
+    ("c12-mean-unweighted", ["C12"], "coordinates.py",
+     "        mean_xyz = np.average(self.to_3d(), weights=weights, axis=0)", "        mean_xyz = np.average(self.to_3d(), axis=0)"),
     # ---- C14
     ("c14-arcsin-arccos", ["C14"], "coordinates.py",
      "angles = 2.0 * np.arcsin(dists / 2.0)", "angles = 2.0 * np.arccos(1.0 - dists / 2.0)"),
